@@ -8,6 +8,8 @@ import (
 	"regexp"
 	"strings"
 
+	"github.com/jf-tech/omniparser"
+
 	"verif/mc/core"
 	"verif/mc/gen"
 	"verif/mc/hx"
@@ -41,13 +43,37 @@ func c15Jobs() []c15Job {
 		c15Job{Name: "csv-datetime", Schema: `{` + h("csv") + `,"file_declaration":{"delimiter":"|","header_row_index":1,"data_row_index":2,"columns":[{"name":"D"},{"name":"TZ"}]},"transform_declarations":{"FINAL_OUTPUT":{"object":{"t":{"custom_func":{"name":"dateTimeToRFC3339","args":[{"xpath":"D"},{"xpath":"TZ"},{"const":"UTC"}]}},"e":{"custom_func":{"name":"dateTimeToEpoch","args":[{"xpath":"D"},{"xpath":"TZ"},{"const":"MILLISECOND"}]}},"l":{"custom_func":{"name":"lower","args":[{"xpath":"TZ"}]}}}}}}`,
 			Input: "D|TZ\n2020-02-29 12:34:56|America/New_York\n1969-07-20T20:17:40Z|\n09/10/2021 1:02:03 PM|Asia/Kolkata\n"},
 	)
+	// typed external properties: the same schema text with different property values (a long-lived
+	// process keeps ONE Schema object and creates a Transform per input)
+	extSchema := `{` + h("csv") + `,"file_declaration":{"delimiter":",","data_row_index":1,"columns":[{"name":"A"}]},"transform_declarations":{"FINAL_OUTPUT":{"object":{"a":{"xpath":"A"},"n":{"external":"n","type":"int"},"f":{"external":"f","type":"float"},"b":{"external":"b","type":"boolean"},"s":{"external":"s"},"t":{"template":"T"}}},"T":{"external":"n","type":"int"}}}`
+	jobs = append(jobs,
+		c15Job{Name: "typed-externals/1", Schema: extSchema, Input: "x\ny\n", Ext: map[string]string{"n": "7", "f": "1.5", "b": "true", "s": "one"}},
+		c15Job{Name: "typed-externals/2", Schema: extSchema, Input: "x\n", Ext: map[string]string{"n": "8", "f": "-2.25", "b": "false", "s": "two"}},
+		c15Job{Name: "typed-externals/missing", Schema: extSchema, Input: "x\n", Ext: map[string]string{"f": "0", "b": "true", "s": ""}},
+		// sibling object keys that share their last dotted part, all failing on the same record: the error
+		// names the field evaluated first, so the evaluation order must not depend on map iteration
+		c15Job{Name: "dotted-sibling-keys-failing-together", Schema: `{` + h("csv") + `,"file_declaration":{"delimiter":",","data_row_index":1,"columns":[{"name":"A"},{"name":"B"}]},"transform_declarations":{"FINAL_OUTPUT":{"object":{"billing.amount":{"xpath":"A","type":"int"},"shipping.amount":{"xpath":"B","type":"int"},"tax.amount":{"xpath":"A","type":"float"},"amount":{"xpath":"B","type":"float"},"a.b.amount":{"xpath":"A","type":"boolean"},"z":{"object":{"p.q":{"xpath":"B","type":"int"},"r.q":{"xpath":"A","type":"int"}}}}}}}`,
+			Input: "1,2\nx,y\n3,z\nw,4\n"},
+	)
 	return jobs
 }
 
+// c15Schemas holds the Schema objects of the current process history when schema objects are reused.
+var c15Schemas map[string]omniparser.Schema
+
 func c15RunJob(j c15Job) []string {
-	schema, err, ps := hx.NewSchema("s", j.Schema)
-	if err != nil {
-		return []string{"SCHEMA ERROR " + err.Error() + ps}
+	var schema omniparser.Schema
+	if s, ok := c15Schemas[j.Schema]; ok {
+		schema = s
+	} else {
+		s, err, ps := hx.NewSchema("s", j.Schema)
+		if err != nil {
+			return []string{"SCHEMA ERROR " + err.Error() + ps}
+		}
+		schema = s
+		if c15Schemas != nil {
+			c15Schemas[j.Schema] = s
+		}
 	}
 	r := hx.Run(schema, strings.NewReader(j.Input), hx.Opts{MaxReads: 500, Raw: true, Externals: j.Ext})
 	var out []string
@@ -91,6 +117,8 @@ func c15Fresh(i int) ([]string, error) {
 type c15Case struct {
 	History []string `json:"history_of_earlier_jobs"`
 	Probe   string   `json:"probe_job"`
+	// ReuseSchemas: jobs of the history that have the same schema text share one Schema object
+	ReuseSchemas bool `json:"reuse_schema_objects,omitempty"`
 }
 
 var uuidRe = regexp.MustCompile(`[0-9a-f]{8}-[0-9a-f]{4}-[0-9a-f]{4}-[0-9a-f]{4}-[0-9a-f]{12}`)
@@ -127,6 +155,11 @@ func c15Check(cs c15Case, base map[string][]string) (sig, detail string) {
 		base[cs.Probe] = b
 	}
 	resetProcessState()
+	c15Schemas = nil
+	if cs.ReuseSchemas {
+		c15Schemas = map[string]omniparser.Schema{}
+	}
+	defer func() { c15Schemas = nil }()
 	for _, hname := range cs.History {
 		c15RunJob(jobs[hname])
 	}
@@ -206,7 +239,7 @@ func init() {
 	core.Register(&core.Prop{
 		ID:    "C15",
 		Level: "exploration",
-		Rule:  "jobs = 11 (schema, input, externals) triples covering all seven formats, templates, xpath_dynamic, javascript(_with_context), copy, uuidv3, date-time functions, XML namespaces incl. one URI bound twice; every history of up to 2 (thorough 3) earlier jobs followed by a probe job is run in one process (pools and caches warm, ID counter advanced; state reset only between histories) and the probe's full transcript (bytes, checksums, raw records, errors) must equal the transcript of the same job in a FRESH process (3 fresh subprocesses per job, which must also agree with each other); no emitted record may contain a UUID-shaped string that is not in the input (declaration hashes are UUIDs); checksums: every pair from a per-format record alphabet (equal content, one value changed, shape changed) must have equal checksums iff the records are equal; distinct by (history, probe) / (format, record pair)",
+		Rule:  "jobs = 15 (schema, input, externals) triples covering all seven formats, templates, xpath_dynamic, javascript(_with_context), copy, uuidv3, date-time functions, XML namespaces incl. one URI bound twice, typed external properties (one schema text, three property sets), dotted sibling object keys failing together; histories are run both with every job parsing its schema anew and with jobs of equal schema text sharing ONE Schema object; every history of up to 2 (thorough 3) earlier jobs followed by a probe job is run in one process (pools and caches warm, ID counter advanced; state reset only between histories) and the probe's full transcript (bytes, checksums, raw records, errors) must equal the transcript of the same job in a FRESH process (3 fresh subprocesses per job, which must also agree with each other); no emitted record may contain a UUID-shaped string that is not in the input (declaration hashes are UUIDs); checksums: every pair from a per-format record alphabet (equal content, one value changed, shape changed) must have equal checksums iff the records are equal; distinct by (history, probe) / (format, record pair)",
 		Assumptions: []string{
 			"Go map iteration order cannot be enumerated: order dependence is exposed only through repetition (every probe runs at least 100 times across histories), which is stated here rather than claimed exhaustive",
 			"the `now` function and scripts drawing randomness are excluded by the property",
@@ -253,20 +286,35 @@ func init() {
 					if !c.Mine(idx) {
 						continue
 					}
-					cs := c15Case{Probe: jobs[p].Name}
-					for _, x := range h {
-						cs.History = append(cs.History, jobs[x].Name)
-					}
-					c.Begin(func() interface{} { return cs })
-					sig, detail := c15Check(cs, base)
-					c.Eval(fmt.Sprintf("%v|%s", h, cs.Probe))
-					c.Count("histories", 1)
-					if strings.HasPrefix(sig, "harness:") {
-						c.HarnessError(sig + ": " + detail)
-					} else if sig != "" {
-						c.Violation(sig, detail, cs, func() string { s, _ := c15Check(cs, base); return s })
-					} else if c.WantSample() && len(h) == depth && idx%101 == 0 {
-						c.Sample(map[string]interface{}{"history": cs.History, "probe": cs.Probe, "probe_results": len(base[cs.Probe])})
+					for _, reuse := range []bool{false, true} {
+						cs := c15Case{Probe: jobs[p].Name, ReuseSchemas: reuse}
+						for _, x := range h {
+							cs.History = append(cs.History, jobs[x].Name)
+						}
+						if reuse {
+							// only histories in which some schema text occurs twice differ from the re-parsed run
+							seen, dup := map[string]bool{jobs[p].Schema: true}, false
+							for _, x := range h {
+								if seen[jobs[x].Schema] {
+									dup = true
+								}
+								seen[jobs[x].Schema] = true
+							}
+							if !dup {
+								continue
+							}
+						}
+						c.Begin(func() interface{} { return cs })
+						sig, detail := c15Check(cs, base)
+						c.Eval(fmt.Sprintf("%v|%s|%v", h, cs.Probe, reuse))
+						c.Count("histories", 1)
+						if strings.HasPrefix(sig, "harness:") {
+							c.HarnessError(sig + ": " + detail)
+						} else if sig != "" {
+							c.Violation(sig, detail, cs, func() string { s, _ := c15Check(cs, base); return s })
+						} else if c.WantSample() && len(h) == depth && idx%101 == 0 {
+							c.Sample(map[string]interface{}{"history": cs.History, "probe": cs.Probe, "reuse_schema_objects": reuse, "probe_results": len(base[cs.Probe])})
+						}
 					}
 				}
 				return !c.TimeUp()
